@@ -102,7 +102,7 @@ class StateScenario(Scenario):
                         d = d["$call"]
                     if "default" not in o or not _dec(d):
                         del o["required"]
-        if self.prop in ("C01", "C06", "C12", "C15"):
+        if self.prop in ("C01", "C06", "C12", "C15", "C13"):
             # environment naming switched on for the whole schema (or single fields) while no variable is set: fields then
             # behave as if no binding existed, but the library takes its environment-aware paths
             erng = stream(seed, "env-naming")
@@ -131,6 +131,11 @@ class StateScenario(Scenario):
                 elif irng.random() < 0.4 and "rq" not in {f["key"] for f in node["fields"]}:
                     node["fields"].append({"kind": "string", "key": "rq", "o": {"required": True}})
         env = {}
+        if self.prop in ("C01", "C12", "C13", "C15") and stream(seed, "empty-env").random() < 0.5:
+            # variables that are defined but empty: still "as if no binding existed"
+            from .environment import env_names
+            ern = stream(seed, "empty-env-names")
+            env = {name: "" for name in sorted(set(env_names(sd).values())) if ern.random() < 0.6}
         if self.prop == "C06" and stream(seed, "c06-env").random() < 0.6:
             # C06 is conditional on the operation raising, so the variables may as well be set: bound fields then start from
             # their variables and loads leave them alone
@@ -405,6 +410,9 @@ class StateScenario(Scenario):
         if not src:
             return None
         sp = rng.choice(src)
+        same = [t for t in src if t.node is d.node and (t.path != d.path or src_cfg != st.cfgs.index(cfg))]
+        if same and rng.random() < 0.6:
+            sp = rng.choice(same)      # the very same field elsewhere in the tree (another list item, another use of a config type)
         return {"op": "set_from", "path": d.path, "src": sp.path, "src_cfg": src_cfg}
 
     def gen_cmdline(self, st, rng, cfg, tgts, cfgpaths, owners):
@@ -458,7 +466,7 @@ class StateScenario(Scenario):
                 rec.fail("C01/frame", "C01/other-field-changed/cmdline", "a command-line override of %r also changed %s: %r -> %r" % (op["paths"], d[0], d[1], d[2]))
 
     def gen_render(self, st, rng, cfg, tgts, cfgpaths, owners):
-        return {"op": "render", "how": rng.choice(["to_tree", "to_tree_virtual", "dumps_json", "dumps_pickle", "asdict", "validate"])}
+        return {"op": "render", "how": rng.choice(["to_tree", "to_tree_virtual", "dumps_json", "dumps_pickle", "asdict", "validate", "argparse"])}
 
     def gen_assign_sub(self, st, rng, cfg, tgts, cfgpaths, owners):
         subs = [t for t in tgts if schema.is_cfg_node(t.node) and isinstance(t.value, Config) or (schema.is_cfg_node(t.node) and "[" not in t.path)]
@@ -666,7 +674,7 @@ class StateScenario(Scenario):
     def gen_dyn(self, st, rng, cfg, tgts, cfgpaths, owners):
         choices = [""] + [p for p, c in cfgpaths]
         p = rng.choice(choices)
-        key = rng.choice(["dyn1", "dyn2", "dyn3", "dyn1", "dyn2", "_tok", "a.b", "x-y"])      # any string is a legal undeclared key
+        key = rng.choice(["dyn1", "dyn2", "dyn3", "dyn1", "dyn2", "_tok", "x-y", "_tok"])      # (a key with a dot cannot be told from a dotted path in the harness: not generated)
         return {"op": "dyn", "path": p, "key": key, "via": rng.choice(["attr", "item"]) if "." not in key else "attr",
                 "v": enc(rng.choice([1, "s", [1, [2]], {"a": {"b": 1}}, None, 2.5]))}
 
@@ -874,6 +882,14 @@ class StateScenario(Scenario):
             _, err = self._call(lambda: cfg.to_tree(virtual=True, sensitive_mask="*"))
         elif how.startswith("dumps_"):
             _, err = self._call(lambda: cfg.dumps(how[6:]))
+        elif how == "argparse":
+            # the command-line frame with nothing on the command line: parser from the schema, empty argv, override applied
+            from cincoconfig.support import cmdline_args_override, generate_argparse_parser
+
+            def frame():
+                parser = generate_argparse_parser(st.B.root, prog="sim", add_help=False)
+                cmdline_args_override(cfg, parser.parse_args([]))
+            _, err = self._call(frame)
         elif how == "asdict":
             _, err = self._call(lambda: asdict(cfg, virtual=True))
         else:
@@ -1549,6 +1565,16 @@ class StateScenario(Scenario):
             return
         rec.log("dop", path, name, type(err).__name__ if err else "ok")
         rec.kind(name + (":ok" if err is None else ":rej"))
+        if (self.prop == "C15" and isinstance(err, ValidationError) and name in ("setitem", "setdefault") and not op.get("faults")
+                and node.get("kf", {"kind": "any"})["kind"] != "bytes" and type(k) in (str, int, bool, tuple)):
+            # an entry rejected while it is put into a typed dict in place: when the rejection comes as a validation error it
+            # names this dict, under the configuration that holds it now, and the entry's key (cf. list insertions)
+            kf = node.get("kf") or {"kind": "any", "o": {}}
+            vf = node.get("vf") or {"kind": "any", "o": {}}
+            rk, rv = model.norm(kf, k, st.ctx), model.norm(vf, v, st.ctx)
+            if REJ in (rk, rv) and UNSPEC not in (rk, rv):
+                self.check_rejection(st, rec, err, "%s[%s]" % (path, str(k)), node, route)
+                rec.probe("dict-insertion-rejected:path-checked")
         if name in SINGLE_DICT_OPS:
             rec.relevant += 1
             if err is not None:
